@@ -91,6 +91,8 @@ def check(repo, rep, tier):
         raise AnalysisError('depccg/parsing.h: no leaf push site found')
     rep.rule('R16.4', 'what the beam admitted stays available: the search expands every accepted entry and stops only for its budget, its n-best quota or an empty agenda')
     rc.r_expansion_unconditional(m, rep, 'R16.4')
+    rep.rule('R16.5', 'the supertag a returned tree shows for a word is the one the search used: retrieve_tree rebuilds a terminal only for an item without children, and a unary item as a unary node')
+    rp.r_retrieve_tree(repo, rep, 'R16.5', {'shape'})
     rp.r_config_plumbing(repo, rep, 'R16.3')
     from .c11 import r_chunks, r_gather
     r_chunks(repo, rep, 'R16.3')           # the beam of a sentence is taken over that sentence's own rows: the result handed back for sentence i is the one searched on its matrices
